@@ -170,8 +170,11 @@ def step (s : St) (ts : List String) : St × List String :=
         let c2 := st.inLost == Spec.lostOf (Spec.unwrapped ssrc w)
         let c3 := Spec.remoteLossOf st == Spec.remoteOf rate (Spec.reportsFor ssrc w).getLast?
         let c4 := st.lastSRs == Spec.lastN 5 (Spec.srTimes ssrc w) && st.lastRRTs == Spec.lastN 5 (Spec.rrtrTimes w)
+        let c5 := Spec.remoteInboundRtt st == Spec.rttFiguresOf (Spec.rttHits ssrc w)
+          && Spec.remoteOutboundRtt st == Spec.rttFiguresOf (Spec.dlrrHits ssrc w)
         (s, [showStats st] ++ (if c1 then [] else ["SPEC-DIFF counters"]) ++ (if c2 then [] else ["SPEC-DIFF lost"])
-          ++ (if c3 then [] else ["SPEC-DIFF remote"]) ++ (if c4 then [] else ["SPEC-DIFF report-times"]))
+          ++ (if c3 then [] else ["SPEC-DIFF remote"]) ++ (if c4 then [] else ["SPEC-DIFF report-times"])
+          ++ (if c5 then [] else ["SPEC-DIFF rtt"]))
     | none => bad
   | ["close"] => (s.apply .close, [])
   | _ => bad
